@@ -4,7 +4,7 @@
    crate (process exit before the k-th I/O event, incl. between the index temp-file write, its
    fsync and the rename) judged by these acceptors. *)
 From W Require Import model.Base model.Engine model.EngineCfg spec.Queue spec.Crash proofs.CrashP proofs.EngineWF proofs.EngineInv proofs.EngineMain
-  proofs.EngineDisk proofs.EnginePos proofs.EngineNorm proofs.EngineReopen proofs.EngineC06 proofs.EngineALO2 proofs.EngineSince proofs.EngineSince2 proofs.EngineCrash proofs.EngineSinceR proofs.EngineCrashA.
+  proofs.EngineDisk proofs.EnginePos proofs.EngineNorm proofs.EngineReopen proofs.EngineC06 proofs.EngineALO2 proofs.EngineSince proofs.EngineSince2 proofs.EngineCrash proofs.EngineSinceR proofs.EngineCrashA proofs.EngineGen proofs.EngineGenR.
 
 Theorem c09_strict_acceptor_means : forall app deliv rec,
   c09_strict_one app deliv rec 0 = true -> outs_are (deliv ++ rec) app = true.
@@ -335,3 +335,39 @@ Check c09_any_mode_crash_inside_consuming_read : forall (c : Cfg) (m : mode) (be
     exists k, (k <= l_del (lget g' t0))%nat /\
               unread c (nrm x (get_ts image t0)) = skipn k (l_app (lget g t0)).
 Print Assumptions c09_any_mode_crash_inside_consuming_read.
+
+(* ANY mode, crash between two operations of ANY history WITH restarts outside block-id drift (generalises
+   c09_alo_never_skips_between_operations, which is about restart-free histories): [gm_ledger] is the ledger
+   of the history with the consumer's TRUE position (third conjunct: what the running process would hand out
+   next is exactly skipn l_del), rolled back at every earlier restart; the fresh process holds the acknowledged
+   stream and resumes at k <= l_del: entries may be delivered again, none is skipped. *)
+Theorem c09_any_mode_never_skips_with_restarts : forall (c : Cfg) (m : mode) (be : backend) (ops : list op), cfg_ok c ->
+  outside_known (env_of c m be) init (ops ++ [OReopen]) = true ->
+  N.of_nat (length (offered_all ops)) <= u64_max -> sum_len (offered_all ops) <= u64_max ->
+  let s := exec (env_of c m be) init ops in
+  let g := gm_ledger (env_of c m be) init [] ops in
+  forall t x,
+    stream (get_ts (reopen c s) t) = l_app (lget g t) /\
+    (l_del (lget g t) <= length (l_app (lget g t)))%nat /\
+    unread c (nrm x (get_ts s t)) = skipn (l_del (lget g t)) (l_app (lget g t)) /\
+    exists k, (k <= l_del (lget g t))%nat /\
+              unread c (nrm x (get_ts (reopen c s) t)) = skipn k (l_app (lget g t)).
+Proof. exact crash_between_operations_never_skips_with_restarts. Qed.
+
+Example c09_witness_never_skips_with_restarts :
+  outside_known (env_of small_cfg (ALO 3) Fd) init
+     ([OAppend tt (en 0 3000); OAppend tt (en 1 3000); ORead tt true; OReopen; OAppend tt (en 2 10); ORead tt true] ++ [OReopen]) = true.
+Proof. vm_compute. reflexivity. Qed.
+
+Check c09_any_mode_never_skips_with_restarts : forall (c : Cfg) (m : mode) (be : backend) (ops : list op), cfg_ok c ->
+  outside_known (env_of c m be) init (ops ++ [OReopen]) = true ->
+  N.of_nat (length (offered_all ops)) <= u64_max -> sum_len (offered_all ops) <= u64_max ->
+  let s := exec (env_of c m be) init ops in
+  let g := gm_ledger (env_of c m be) init [] ops in
+  forall t x,
+    stream (get_ts (reopen c s) t) = l_app (lget g t) /\
+    (l_del (lget g t) <= length (l_app (lget g t)))%nat /\
+    unread c (nrm x (get_ts s t)) = skipn (l_del (lget g t)) (l_app (lget g t)) /\
+    exists k, (k <= l_del (lget g t))%nat /\
+              unread c (nrm x (get_ts (reopen c s) t)) = skipn k (l_app (lget g t)).
+Print Assumptions c09_any_mode_never_skips_with_restarts.
